@@ -44,10 +44,17 @@ SizeViol(t) ==
     [] t.ret = "err" /\ AllOk(t) /\ ~Cancelled(t) -> {<<l, "SpuriousError">>}
     [] OTHER -> {}
 
+\* the serving side of a remote size lookup (Dataset.PartitionInfo): k = 1 iff the asked node hosts the partition
+PinfoViol(t) ==
+  CASE t.k = 0 /\ t.ret = "ok" -> {<<l, "ForeignPartitionAnswered">>}
+    [] t.k = 1 /\ t.ret # "ok" -> {<<l, "SpuriousError">>}
+    [] t.k = 1 /\ t.ret = "ok" -> IF t.res[1] = t.parts["local"] THEN {} ELSE {<<l, "WrongSum">>}
+    [] OTHER -> {}
+
 Init == l = 1 /\ viol = {}
 Step == /\ l <= Len(Trace) /\ l' = l + 1
         /\ LET t == Trace[l] IN
-           viol' = viol \cup (IF t.ev = "size" THEN SizeViol(t) ELSE SearchViol(t))
+           viol' = viol \cup (IF t.ev = "size" THEN SizeViol(t) ELSE IF t.ev = "pinfo" THEN PinfoViol(t) ELSE SearchViol(t))
 Spec == Init /\ [][Step]_vars
 Report == l = Len(Trace) + 1 => PrintT(<<"VIOL", ToJson([n |-> Len(Trace), v |-> viol])>>)
 =============================================================================
